@@ -7,6 +7,7 @@ pub mod c07;
 pub mod c08;
 pub mod c10;
 pub mod c11;
+pub mod c13;
 pub mod c15;
 pub mod c16;
 pub mod c17;
